@@ -468,10 +468,20 @@ func runC16(c *Ctx) {
 				}
 				n++
 				exact := false
+				_, enq := c.writeSinks()
 				for _, ft := range fi.Facts(st) {
 					if e, ok := c.queueTest(ft); ok && e && ft.If != nil {
 						if e2, ok2 := c.queueTest(ir.Fact{If: ft.If, Cond: ft.Cond, Truth: !ft.Truth}); ok2 && !e2 {
 							exact = true
+							// the test must still be true at the clear: nothing may have been queued in between
+							vis, _ := fi.Reach([]ssa.Instruction{ft.If}, func(in ssa.Instruction) bool { return in == ssa.Instruction(st) })
+							for in := range vis {
+								if cs, isCall := ir.AsCall(in); isCall {
+									if callee := ir.StaticCallee(cs.Common); callee != nil && (enq[callee] || callee == c.Core().EnqueueFile) && fi.CanReach(in, st) {
+										exact = false
+									}
+								}
+							}
 						}
 					}
 				}
